@@ -113,6 +113,15 @@ fn expressions(tier: Tier) -> Vec<(String, String, &'static str)> {
                         v.push((format!("unLast.{l}"), format!("{a} {o1} {b} {o2} ({u_}{c})"), syntax));
                     }
                 }
+                // a unary operation as a parenthesised prefix: the parentheses are always needed
+                if !only_new || *u == "~" {
+                    let u_ = sp(u);
+                    v.push((format!("unPrefixIndex.{l}"), format!("({u_}{a}).{b}"), syntax));
+                    v.push((format!("unPrefixMethod.{l}"), format!("({u_}{a}):m({b})"), syntax));
+                    v.push((format!("unPrefixCall.{l}"), format!("({u_}{a})({b})"), syntax));
+                    v.push((format!("unPrefixBracket.{l}"), format!("({u_}{a})[{b}]"), syntax));
+                    v.push((format!("unPrefixChain.{l}"), format!("({u_}{a}).{b}.{c}:m({d})"), syntax));
+                }
                 for u2 in &uns {
                     if only_new && *u != "~" && *u2 != "~" {
                         continue;
@@ -174,6 +183,10 @@ fn expressions(tier: Tier) -> Vec<(String, String, &'static str)> {
                     format!("({a} :: T) :: U"),
                     format!("(({a} :: T) :: U)"),
                     format!("({a} :: T).{b}"),
+                    format!("({a} :: T):m({b})"),
+                    format!("({a} :: Mod.Type)[{b}]"),
+                    format!("(if {a} then {b} else {c}).{d}"),
+                    format!("(if {a} then {b} else {c}):m({d})"),
                     format!("({a} :: T)({b})"),
                     format!("(if {a} then {b} else {c})({d})"),
                     format!("(if {a} then {b} else {c}) :: T"),
